@@ -157,6 +157,11 @@ def run(ctx):
     from . import c12
     reuse(ctx, c12.run, ("C12.cad",), "C14cad", "cadence rule shared with C12: sample_posterior rewrites /flow and the configuration before sampling, so every run that has a "
           "checkpoint callback must end by writing its own checkpoint -- otherwise the file pairs the new flow with the checkpoint of an earlier run")
+    reuse(ctx, c12.run, ("C12.blob",), "C14blob", "blob-writer rule shared with C12: sample_posterior has already replaced /flow when the sampler stores its checkpoint, so a payload that is "
+          "not written (or an old one that is kept) pairs the new flow with the particles of an earlier run")
+    from . import c13
+    reuse(ctx, c13.run, ("C13.flow", "C13.nomut"), "C14rt", "flow round-trip rules shared with C13: sample_posterior saves the flow again on every call, also the one a resumed instance loaded from the file, "
+          "so a flow that does not survive load-then-save (or a second save) unchanged leaves a proposal in the file that is not the one the stored particles were weighted under")
     from . import c11
     reuse(ctx, c11.run, ("C11.prime",), "C14res", "resume-route rule shared with C11: the population a resumed instance continues from is the checkpoint read in the same pass as the flow it loaded, "
           "and it is forwarded exactly when the caller gave none")
@@ -206,6 +211,9 @@ MUTANTS = [
     M("config without the sampler", _A, "self.save_config(\n                        h5_file,\n                        include_sampler_config=True,\n                        include_sample_calls=False,\n                    )\n                    saved_config = True", "self.save_config(\n                        h5_file,\n                        include_sampler_config=False,\n                    )\n                    saved_config = True", "C14.config"),
 ]
 MUTANTS += [
+    M("loaded flow gets its data transform attached after construction (a re-save writes none)", "src/aspire/flows/torch/flows.py", "config[\"data_transform\"] = data_transform\n", "pass\n", "C14rt",
+      more=[("obj = self(**config)\n", "obj = self(**config)\n        if \"data_transform\" in flow_grp:\n            obj.data_transform = data_transform\n")]),
+    M("checkpoint of unchanged length not rewritten", "src/aspire/utils.py", "target[dsetname].resize((bdata.size,))\n    target[dsetname][:] = bdata", "target[dsetname].resize((bdata.size,))\n        target[dsetname][:] = bdata", "C14blob"),
     M("flow written once per context", _A, "if self.flow is not None:\n                    # Always store", "if self.flow is not None and not saved_flow:\n                    # Always store", "C14.flow"),
 ]
 NEUTRALS = [
